@@ -329,12 +329,17 @@ var c20Cmds = []c20Cmd{
 	{"pb-binary", func(g *c20Gen, t *rapid.T) []string { return []string{"pb", "--mode", "pb", "-o", "out.pb", "m.sysl"} }},
 	{"validate", func(g *c20Gen, t *rapid.T) []string { return []string{"validate", "m.sysl"} }},
 	{"sd-endpoint", func(g *c20Gen, t *rapid.T) []string {
-		a := pick(t, g.apps, "sdapp")
-		e := "Get"
-		if len(g.eps[a]) > 0 {
-			e = pick(t, g.eps[a], "sdep")
+		args := []string{"sd"}
+		// 1-3 start endpoints in one diagram (every other start is a "see below" cut for the others)
+		for k := 0; k < rapid.IntRange(1, 3).Draw(t, "nsdstarts"); k++ {
+			a := pick(t, g.apps, "sdapp")
+			e := "Get"
+			if len(g.eps[a]) > 0 {
+				e = pick(t, g.eps[a], "sdep")
+			}
+			args = append(args, "-s", a+" <- "+e)
 		}
-		args := []string{"sd", "-s", a + " <- " + e, "-o", "sd.puml"}
+		args = append(args, "-o", "sd.puml")
 		if rapid.Bool().Draw(t, "blackbox") {
 			args = append(args, "-b", pick(t, g.apps, "bbapp")+" <- "+pick(t, c20Eps, "bbep")+",note")
 		}
@@ -515,7 +520,7 @@ func checkC20(x *X, c c20Case) error {
 }
 
 var c20Prop = Define("C20", "cli",
-	"untidy-but-valid models (dangling call targets: app or endpoint; dangling, one-segment, cross-app, self- and mutually recursive type references; empty apps and types; call cycles incl. among ~hidden endpoints of pass-through applications; tables with foreign keys incl. self/cyclic/dangling; passthrough/exclude project views; project lists naming a missing app) x one of 21 command/option sets (pb x4, validate, sd x2 with blackbox/groupby, ints x4, datamodel x2, export x6, generate-db-scripts, -delta incl. a model against itself) run with the sysl binary built from the working tree; oracle: terminates, no 'panic:'/'fatal error:'/'goroutine' on stderr, non-zero exit carries a message. A crash is keyed by '<command>:<kind>@<first frame in the repository>'. Non-trivial: the model contains at least one untidy element; distinct by (command line, model).",
+	"untidy-but-valid models (dangling call targets: app or endpoint; dangling, one-segment, cross-app, self- and mutually recursive type references; empty apps and types; call cycles incl. among ~hidden endpoints of pass-through applications; tables with foreign keys incl. self/cyclic/dangling; passthrough/exclude project views; project lists naming a missing app) x one of 21 command/option sets (pb x4, validate, sd x2 with 1-3 start endpoints, blackbox/groupby, ints x4, datamodel x2, export x6, generate-db-scripts, -delta incl. a model against itself) run with the sysl binary built from the working tree; oracle: terminates, no 'panic:'/'fatal error:'/'goroutine' on stderr, non-zero exit carries a message. A crash is keyed by '<command>:<kind>@<first frame in the repository>'. Non-trivial: the model contains at least one untidy element; distinct by (command line, model).",
 	genC20, checkC20)
 
 func TestC20(t *testing.T) {
